@@ -220,58 +220,59 @@ def envLine (s : St) (toks : List String) : Option (St × String) :=
       some (s.setUnit u { x with names := { x.names with quals := (r, i, g) :: x.names.quals } }, "ok")
   | _ => none
 
-/-! ### printing Go text (whitespace-free) -/
+/-! ### printing Go text (whitespace-free, as bytes: string literals may hold any byte) -/
 
-def Names.global (n : Names) (f : Nat) (nm : Name) : String :=
-  match n.globals.find? (fun (a, b, _) => a == f && b == nm) with
-  | some (_, _, g) => VL.ascii g
-  | none => "?" ++ VL.ascii nm
+def a (s : String) : Bytes := s.toUTF8.toList.map (·.toNat)
 
-def Names.enumVal (n : Names) (f : Nat) (en v : Name) : String :=
-  match n.enumVals.find? (fun (a, b, c, _) => a == f && b == en && c == v) with
-  | some (_, _, _, g) => VL.ascii g
-  | none => "?" ++ VL.ascii en ++ "." ++ VL.ascii v
+def Names.global (n : Names) (f : Nat) (nm : Name) : Bytes :=
+  match n.globals.find? (fun (x, b, _) => x == f && b == nm) with
+  | some (_, _, g) => g
+  | none => a "?" ++ nm
 
-def Names.field (n : Names) (f : Nat) (sn : Name) (i : Nat) : String :=
-  match n.fields.find? (fun (a, b, c, _) => a == f && b == sn && c == i) with
-  | some (_, _, _, g) => VL.ascii g
-  | none => s!"?{i}"
+def Names.enumVal (n : Names) (f : Nat) (en v : Name) : Bytes :=
+  match n.enumVals.find? (fun (x, b, c, _) => x == f && b == en && c == v) with
+  | some (_, _, _, g) => g
+  | none => a "?" ++ en ++ a "." ++ v
 
-def Names.qual (n : Names) (root f : Nat) : String :=
-  match n.quals.find? (fun (a, b, _) => a == root && b == f) with
-  | some (_, _, g) => VL.ascii g ++ "."
-  | none => "?."
+def Names.field (n : Names) (f : Nat) (sn : Name) (i : Nat) : Bytes :=
+  match n.fields.find? (fun (x, b, c, _) => x == f && b == sn && c == i) with
+  | some (_, _, _, g) => g
+  | none => a s!"?{i}"
+
+def Names.qual (n : Names) (root f : Nat) : Bytes :=
+  match n.quals.find? (fun (x, b, _) => x == root && b == f) with
+  | some (_, _, g) => g ++ a "."
+  | none => a "?."
 
 def baseName : Cat → String
   | .bool => "bool" | .i8 => "int8" | .i16 => "int16" | .i32 => "int32" | .i64 => "int64"
   | .dbl => "float64" | .str => "string" | .bin => "[]byte" | _ => "?"
 
-def showTy (n : Names) (root : Nat) : GoTy → String
-  | .base c => baseName c
-  | .named f nm q => (if q then n.qual root f else "") ++ n.global f nm
-  | .slice p e => "[]" ++ (if p then "*" else "") ++ showTy n root e
-  | .map kp k vp v => "map[" ++ (if kp then "*" else "") ++ showTy n root k ++ "]" ++ (if vp then "*" else "") ++ showTy n root v
-  | .bad => ""
+def showTy (n : Names) (root : Nat) : GoTy → Bytes
+  | .base c => a (baseName c)
+  | .named f nm q => (if q then n.qual root f else []) ++ n.global f nm
+  | .slice p e => a "[]" ++ (if p then a "*" else []) ++ showTy n root e
+  | .map kp k vp v => a "map[" ++ (if kp then a "*" else []) ++ showTy n root k ++ a "]" ++ (if vp then a "*" else []) ++ showTy n root v
+  | .bad => []
 
-partial def showExpr (E : Env) (n : Names) (root : Nat) : GoExpr → String
-  | .boolLit b => if b then "true" else "false"
-  | .intLit k => toString k
-  | .floatOfInt k => toString k ++ ".0"
-  | .floatLit _ txt => VL.ascii txt
-  | .strLit raw => String.ofList (raw.map Char.ofNat)
-  | .ident (.global f nm) => (if qual E root f then n.qual root f else "") ++ n.global f nm
-  | .ident (.enumVal f en v) => (if qual E root f then n.qual root f else "") ++ n.enumVal f en v
-  | .conv ty _ e => showTy n root ty ++ "(" ++ showExpr E n root e ++ ")"
-  | .bytesConv e => "[]byte(" ++ showExpr E n root e ++ ")"
-  | .sliceLit ty es => showTy n root ty ++ "{" ++ String.join (es.map fun e => showExpr E n root e ++ ",") ++ "}"
-  | .mapLit ty kvs => showTy n root ty ++ "{" ++ String.join (kvs.map fun (k, v) => showExpr E n root k ++ ":" ++ showExpr E n root v ++ ",") ++ "}"
-  | .structLit ty file sn ents => "&" ++ showTy n root ty ++ "{" ++
-      String.join (ents.map fun (i, e) => n.field file sn i ++ ":" ++ showExpr E n root e ++ ",") ++ "}"
-  | .addr e => "&" ++ showExpr E n root e
-  | .ptrTrick ty e => "(&struct{x" ++ showTy n root ty ++ "}{" ++ showExpr E n root e ++ "}).x"
+partial def showExpr (E : Env) (n : Names) (root : Nat) : GoExpr → Bytes
+  | .boolLit b => a (if b then "true" else "false")
+  | .intLit k => a (toString k)
+  | .floatOfInt k => a (toString k ++ ".0")
+  | .floatLit _ txt => txt
+  | .strLit raw => raw
+  | .ident (.global f nm) => (if qual E root f then n.qual root f else []) ++ n.global f nm
+  | .ident (.enumVal f en v) => (if qual E root f then n.qual root f else []) ++ n.enumVal f en v
+  | .conv ty _ e => showTy n root ty ++ a "(" ++ showExpr E n root e ++ a ")"
+  | .bytesConv e => a "[]byte(" ++ showExpr E n root e ++ a ")"
+  | .sliceLit ty es => showTy n root ty ++ a "{" ++ (es.map fun e => showExpr E n root e ++ a ",").flatten ++ a "}"
+  | .mapLit ty kvs => showTy n root ty ++ a "{" ++ (kvs.map fun (k, v) => showExpr E n root k ++ a ":" ++ showExpr E n root v ++ a ",").flatten ++ a "}"
+  | .structLit ty file sn ents => a "&" ++ showTy n root ty ++ a "{" ++
+      (ents.map fun (i, e) => n.field file sn i ++ a ":" ++ showExpr E n root e ++ a ",").flatten ++ a "}"
+  | .addr e => a "&" ++ showExpr E n root e
+  | .ptrTrick ty e => a "(&struct{x" ++ showTy n root ty ++ a "}{" ++ showExpr E n root e ++ a "}).x"
 
-/-- the text is compared byte-wise as hex (string literals may hold any byte) -/
-def textOut (s : String) : String := VL.hexEncode (s.toUTF8.toList.map (·.toNat))
+def textOut (b : Bytes) : String := VL.hexEncode b
 
 /-! ### ops -/
 
